@@ -435,6 +435,12 @@ impl<CS: BbsCiphersuite> PoKSignature<BBSplus<CS>> {
         if disclosed_indexes.iter().any(|&i| i >= L) || disclosed_commitment_indexes.iter().any(|&j| j >= M) {
             return Err(Error::PoKSVerificationError("disclosed index out of range".to_owned()));
         }
+        // each list of disclosed messages goes with its own list of indexes
+        if disclosed_messages.len() != disclosed_indexes.len()
+            || disclosed_committed_messages.len() != disclosed_commitment_indexes.len()
+        {
+            return Err(Error::PoKSVerificationError("number of disclosed messages and of disclosed indexes differ".to_owned()));
+        }
 
         let (message_scalars, generators) = prepare_parameters::<CS>(
             Some(disclosed_messages),
